@@ -472,8 +472,12 @@ def classify_escape(data: bytes, n_yielded: int, exc: BaseException, reader: str
         return f"non-dict-record:{name}"
     vc = version_class(rec)
     if isinstance(exc, T.BudgetExceeded):
-        if isinstance(rec.get(b"version"), int) and not isinstance(rec.get(b"version"), bool):
-            return "bytes-version-key-with-int-version:non-termination"
+        # converters from 1.0 on write the str key "version" while migrate_flow looks up b"version" first
+        v = rec.get(b"version")
+        if isinstance(v, int) and not isinstance(v, bool) and v in compat.converters:
+            return "bytes-version-key-with-str-key-era-version:non-termination"
+        if isinstance(v, list) and len(v) >= 2 and v[:2] in ([1, 0], [2, 0], [3, 0]):
+            return "bytes-version-key-with-str-key-era-version:non-termination"
         return None
     return f"invalid-state-{vc}-version:{name}"
 
